@@ -15,6 +15,7 @@ from vf.common import Plan, crandn, held, violated, relerr, rng_for, pick, nrm
 from vf.oracles import dft as O
 
 SPEC = {
+    "deciding_monitors": ["fn:fft", "fn:ifft", "in:layout:F", "in:layout:strided", "in:complex64", "in:float32"],
     "rule": ("cases = generated (direction, shape, axes, center, norm, oshape, dtype, "
              "input class) tuples plus directed delta inputs on odd axes with a strict "
              "subset of axes; distinct = distinct (gen, direction, ndim, parity pattern, "
@@ -153,7 +154,12 @@ def run_case(case):
         dtype = np.dtype(case["dtype"])
         oshape = case["oshape"]
         view = case["view"]
-        if view and len(shape) >= 2:
+        if view and sum(case["rs"]) % 2 == 0:
+            big = np.zeros(tuple(2 * n for n in shape), dtype)
+            sl = tuple(slice(None, None, 2) for _ in shape)
+            big[sl] = crandn(rng, shape, dtype)
+            x = big[sl]                                  # strided view
+        elif view and len(shape) >= 2:
             x = crandn(rng, shape[::-1], dtype).T        # non-contiguous input
         else:
             x = crandn(rng, shape, dtype)
